@@ -46,6 +46,31 @@ Theorem C05_exports_reach_exactly_the_importers :
 Proof. exact build_imports_are_reachable. Qed.
 Print Assumptions C05_exports_reach_exactly_the_importers.
 
+(* The two clauses of the property, for environments, with M' in the place of M (same name, context, imports and
+   flags; the env may differ) in a selection with pairwise different names whose recorded providers are selected
+   (what the resolver delivers: ImportsBuild.v) — proofs/ExportFrame.v:
+   (1) a LOCAL edit of M (its exports stay) changes the environment of no other module; *)
+Require Import Laze.proofs.ExportFrame.
+Theorem C05_local_edit_changes_only_the_module :
+  forall ms provs, (forall n y, In y (get_list n provs) -> In y ms) -> NoDup (map m_name ms) ->
+  forall M M', In M ms -> m_name M' = m_name M -> m_context_name M' = m_context_name M ->
+  m_imports M' = m_imports M -> m_is_build_dep M' = m_is_build_dep M -> m_notify_all M' = m_notify_all M ->
+  forall genv X, m_env_export M' = m_env_export M -> In X ms -> m_name X <> m_name M ->
+  rmap fst (build_env genv (map (edit M M') ms) (map_provs (edit M M') provs) X) = rmap fst (build_env genv ms provs X).
+Proof. exact local_edit_changes_only_the_module. Qed.
+Print Assumptions C05_local_edit_changes_only_the_module.
+
+(* (2) an edit of M's EXPORTED env changes the environment of X only if X reaches M through active imports: only M and
+   the modules that use or depend on it, directly or transitively. *)
+Theorem C05_export_edit_changes_only_importers :
+  forall ms provs, (forall n y, In y (get_list n provs) -> In y ms) -> NoDup (map m_name ms) ->
+  forall M M', In M ms -> m_name M' = m_name M -> m_context_name M' = m_context_name M ->
+  m_imports M' = m_imports M -> m_is_build_dep M' = m_is_build_dep M -> m_notify_all M' = m_notify_all M ->
+  forall genv X, In X ms -> ~ ImportsClosure.reach ms provs X M ->
+  rmap fst (build_env genv (map (edit M M') ms) (map_provs (edit M M') provs) X) = rmap fst (build_env genv ms provs X).
+Proof. exact export_edit_changes_only_importers. Qed.
+Print Assumptions C05_export_edit_changes_only_importers.
+
 (* --- statements --- *)
 (* Two runs of the module loop of one (builder, app) — before and after an edit — started with the same table
    [dirs] of download directories (C05_same_download_table: related build orders have the same), whose build orders
@@ -138,3 +163,27 @@ Proof.
     split; [reflexivity|]. split; [|right; reflexivity].
     split; [intros Hx; discriminate Hx|]. split; [intros d []|intros _ d []].
 Qed.
+
+(* the premises are satisfiable and (2) separates: a uses b, c stands alone — c does not reach b, a does *)
+Definition ex_mod (name : str) (imports : list dep) (export : env) : module :=
+  {| m_name := name; m_context_name := S_ "default"; m_selects := []; m_imports := imports; m_provides := None; m_conflicts := None;
+     m_notify_all := false; m_blocklist := None; m_allowlist := None; m_sources := []; m_sources_optional := None; m_tasks := [];
+     m_build := None; m_env_local := []; m_env_export := export; m_env_global := []; m_env_early := []; m_relpath := None; m_srcdir := None;
+     m_build_dep_files := None; m_is_build_dep := false; m_is_global_build_dep := false; m_is_binary := false;
+     m_context_id := None; m_defined_in := None; m_download := None |}.
+Definition ex_a := ex_mod (S_ "a") [Hard (S_ "b")] [].
+Definition ex_b := ex_mod (S_ "b") [] [(S_ "CFLAGS", EList [S_ "-Ib"])].
+Definition ex_b' := ex_mod (S_ "b") [] [(S_ "CFLAGS", EList [S_ "-Iedited"])].
+Definition ex_c := ex_mod (S_ "c") [] [].
+Example C05_ex_c_does_not_reach_b : ~ ImportsClosure.reach [ex_a; ex_b; ex_c] [] ex_c ex_b.
+Proof.
+  intros Hr. apply (ImportsClosure.imports_postorder_complete [ex_a; ex_b; ex_c] []) in Hr.
+  - vm_compute in Hr. destruct Hr as [E|[]]. discriminate E.
+  - intros n y [].
+  - repeat constructor; cbn; intuition discriminate.
+  - right; right; left; reflexivity.
+Qed.
+Example C05_ex_a_sees_the_edit :
+  rmap fst (build_env [] (map (edit ex_b ex_b') [ex_a; ex_b; ex_c]) [] ex_a) <> rmap fst (build_env [] [ex_a; ex_b; ex_c] [] ex_a) /\
+  rmap fst (build_env [] (map (edit ex_b ex_b') [ex_a; ex_b; ex_c]) [] ex_c) = rmap fst (build_env [] [ex_a; ex_b; ex_c] [] ex_c).
+Proof. split; [vm_compute; discriminate|vm_compute; reflexivity]. Qed.
